@@ -1,6 +1,7 @@
 import CoxeterVerif.Driver.Proto
 import CoxeterVerif.Model.MeshIO
 import CoxeterVerif.Spec.MeshIO
+import CoxeterVerif.Lemmas.MeshIOXmlText
 
 namespace OpsC20
 open MeshIO
@@ -43,6 +44,22 @@ def nrmTable (m : Mesh) (ns : List V3T) : V3T → V3T → V3T → V3T :=
     | some e => e.2
     | none => ([], [], [])
 
+/-- raw 64 bits of a double token -/
+def rdBits (c : Ctx) : Rd Nat := do
+  let i ← get
+  match c.toks[i]? with
+  | some (.bits b) => set (i + 1); pure b.toNat
+  | _ => throw s!"expected double bits at {i}"
+
+def rdV3B (c : Ctx) : Rd V3B := do
+  let x ← rdBits c; let y ← rdBits c; let z ← rdBits c
+  pure (x, y, z)
+
+def outRatOpt (r : Option Rat) : String :=
+  match r with
+  | none => "i0"
+  | some q => s!"i1 {q.num}/{q.den}"
+
 /-- driver ops of C20. `none` = unknown op. -/
 def run (α : Type) [Scalar α] [Codec α] (op : String) (c : Ctx) : Option (Rd String) :=
   match op with
@@ -72,6 +89,60 @@ def run (α : Type) [Scalar α] [Codec α] (op : String) (c : Ctx) : Option (Rd 
   | "io.read_stl" => some do
       let text ← rdStr c
       pure (outFacets (readStl text))
+  | "io.repr" => some do
+      -- in: list of (neg, digits, decpt) as dtoa delivered them ; out: list of `str(coord)` tokens (model `floatRepr`)
+      let items ← Rd.list c (do
+        let neg ← Rd.nat c; let ds ← Rd.list c (Rd.nat c); let k ← Rd.int c
+        pure (floatRepr (neg != 0) ds k))
+      pure (outList outStr items)
+  | "io.readsas" => some do
+      -- in: list of (token, 64 bits of a double) ; out: per token b1 iff the correctly rounded value of the token is
+      -- exactly that double (`readsAsB`, exact over ℚ whatever the mode)
+      let items ← Rd.list c (do
+        let t ← rdStr c; let b ← rdBits c
+        pure (readsAsB t b))
+      pure (if items.isEmpty then "i0" else s!"i{items.length} " ++ Out.bools items)
+  | "io.coordcert" => some do
+      -- in: vertex token triples, vertex double triples ; out: `coordsReadAs` (the certificate of the `_exact` theorems)
+      let vs ← Rd.list c (rdV3T c)
+      let xs ← Rd.list c (rdV3B c)
+      pure (Out.bool (coordsReadAs vs xs))
+  | "io.tokval" => some do
+      -- in: token ; out: 0 | 1 exact value
+      let t ← rdStr c
+      pure (outRatOpt (tokValue t))
+  | "io.stl_normals" => some do
+      -- in: vertices (n × 3 scalars), one face ; out: the fan triangles' `np.cross(t1-t0, t2-t1)`
+      let vs ← Rd.list c (Rd.v3 (α := α) c)
+      let f ← Rd.list c (Rd.nat c)
+      let zero : V3 α := V3.zero
+      let ns := stlFaceNormals (fun i => vs.getD i zero) f
+      pure (" ".intercalate (ns.map Out.v3))
+  | "io.stl_pre" => some do
+      -- in: copy mode (0 deepcopy = the code, 1 shallow copy), convex?, vertices (flat), centroid (3), other arrays
+      -- out: after the preamble of to_stl: the caller's `_vertices`, the caller's `_centroid`, `vs` (what is printed),
+      --      the array number `h.length + 1` (deepcopy: the COPY's `_centroid`), and b1 iff every array that existed
+      --      before the call is unchanged
+      let mode ← Rd.nat c
+      let convex ← Rd.nat c
+      let verts ← Rd.list c (Rd.sc (α := α) c)
+      let cen ← Rd.list c (Rd.sc (α := α) c)
+      let others ← Rd.list c (Rd.list c (Rd.sc (α := α) c))
+      let h : Heap α := [verts, cen] ++ others
+      let shape : ShapeH := ⟨convex != 0, 0, 1, (List.range others.length).map (· + 2), false⟩
+      let r := toStlPreH (if mode = 0 then deepcopyH else shallowcopyH) (fun _ => cen) h shape
+      let same := (List.range h.length).all fun i =>
+        ((r.1.get i).map Codec.encode) == ((h.get i).map (Codec.encode (α := α)))
+      pure s!"{outList Out.sc (r.1.get 0)} {outList Out.sc (r.1.get 1)} {outList Out.sc r.2} {outList Out.sc (r.1.get (h.length + 1))} {Out.bool same}"
+  | "io.read_xml" => some do
+      -- in: reader (0 X3D case-sensitive, 1 X3D ignoring case, 2 X3DOM/HTML page) and the file text
+      -- out: 0 (not XML / no scene) | 1 mesh — `parseXml` / `parseHtmlDoc` then the tree reader of the theorems
+      let k ← Rd.nat c; let text ← rdStr c
+      let r := match k with
+        | 0 => (parseXml text).bind readX3d
+        | 1 => (parseXml text).bind readX3dLenient
+        | _ => (parseHtmlDoc text).bind readHtml
+      pure (outMesh r)
   | "io.edges" => some do
       -- in: faces ; out: len(Polyhedron.edges)
       let fs ← Rd.list c (Rd.list c (Rd.nat c))
